@@ -250,17 +250,21 @@ def weights_rule(ctx, gl, lib):
 def sri_rule(ctx, lib):
     repo = ctx.repo
     r = ctx.rule("R2.6", "Timoshenko selective integration: bending rows + shear rows partition the diagonal of D; row tables of BeamBending, BeamShear, Isotropic.Get_D and _Timoshenko.Get_beam_B_e_pg agree", min_instances=4)
-    # shear_rows literals
+    # shear-row tables: a dict literal {dim: rows} subscripted by the dimension
+    from ..flow import Locals
+
     tabs = {}
     for fname in ("BeamBending", "BeamShear"):
         f = repo.func(f"{BIL}.{fname}")
         for n in ast.walk(f.node):
-            if isinstance(n, ast.Assign) and any(isinstance(t, ast.Name) and t.id == "shear_rows" for t in n.targets):
-                if isinstance(n.value, ast.Subscript) and isinstance(n.value.value, ast.Dict):
+            if isinstance(n, ast.Assign) and isinstance(n.value, ast.Subscript) and isinstance(n.value.value, ast.Dict) and isinstance(n.targets[0], ast.Name):
+                try:
                     d = ast.literal_eval(n.value.value)
-                    tabs[fname] = ({k: tuple(v) for k, v in d.items()}, f, n)
+                except Exception:
+                    continue
+                tabs[fname] = ({k: tuple(v) for k, v in d.items()}, f, n, n.targets[0].id)
     if set(tabs) != {"BeamBending", "BeamShear"}:
-        raise AnalysisError("R2.6: shear_rows tables not found in BeamBending/BeamShear")
+        raise AnalysisError("R2.6: shear-row tables ({dim: rows}[dim]) not found in BeamBending/BeamShear")
     r.instance(fn=tabs["BeamBending"][1].qualname)
     if tabs["BeamBending"][0] == tabs["BeamShear"][0]:
         r.ok(f"shear_rows agree: {tabs['BeamBending'][0]}")
@@ -271,15 +275,18 @@ def sri_rule(ctx, lib):
     # the zeroing logic: Bending zeroes D[r,r] for r in shear_rows; Shear zeroes D[r,r] for r NOT in shear_rows
     for fname, expect_not in (("BeamBending", False), ("BeamShear", True)):
         f = tabs[fname][1]
+        tabname = tabs[fname][3]
         r.instance(fn=f.qualname)
         ok = False
         for n in ast.walk(f.node):
-            if isinstance(n, ast.For):
-                txt = norm_text(n)
-                if "D_e_pg[:, :, r, r] = 0.0" in txt:
-                    has_not = "not in shear_rows" in txt
-                    iter_shear = norm_text(n.iter) == "shear_rows"
-                    ok = (expect_not and has_not and not iter_shear) or (not expect_not and iter_shear and not has_not)
+            if isinstance(n, ast.For) and isinstance(n.target, ast.Name):
+                v = n.target.id
+                zero = [a for a in ast.walk(n) if isinstance(a, ast.Assign) and isinstance(a.targets[0], ast.Subscript) and isinstance(a.targets[0].slice, ast.Tuple) and [norm_text(e) for e in a.targets[0].slice.elts[-2:]] == [v, v] and norm_text(a.value) in ("0.0", "0")]
+                if not zero:
+                    continue
+                iter_is_table = isinstance(n.iter, ast.Name) and n.iter.id == tabname
+                guards = [g for g in ast.walk(n) if isinstance(g, ast.If) and isinstance(g.test, ast.Compare) and isinstance(g.test.ops[0], ast.NotIn) and norm_text(g.test.left) == v and isinstance(g.test.comparators[0], ast.Name) and g.test.comparators[0].id == tabname]
+                ok = (expect_not and bool(guards) and not iter_is_table) or (not expect_not and iter_is_table and not guards)
         if ok:
             r.ok(f"{fname}: zeroes the diagonal entries of the {'non-shear' if expect_not else 'shear'} rows only")
         else:
